@@ -298,15 +298,64 @@ Proof.
   split; [|assumption]. cbn [putA set_anchors anchors]. rewrite H. reflexivity.
 Qed.
 
+(* the theorems below are about processes that never call the update methods (openForUpdating ... ):
+   their scripts contain no update operation, so they are never inside one nor in the updater's mode *)
+Definition nou_op (o : kop) : bool := match o with KU _ | KSp _ | KCu | KAu => false | _ => true end.
+Definition nou_cm (m : cmode) : bool := match m with CUpd _ => false | _ => true end.
+Definition nou_pc (p : spc) : bool := match p with UP _ _ => false | _ => true end.
+Definition noU (th : mthread) : Prop :=
+  nou_cm (cm th) = true /\ nou_pc (tpc th) = true /\ forallb nou_op (scr th) = true.
+
+Lemma fetchk_nou : forall m s o r, forallb nou_op s = true -> fetchk m s = Some (o, r) -> nou_op o = true /\ forallb nou_op r = true.
+Proof.
+  induction s as [|x s IH]; simpl; intros o r H F; [discriminate|].
+  apply andb_true_iff in H. destruct H as [H1 H2].
+  destruct (legalk m x); [inversion F; subst; split; assumption | eapply IH; eassumption].
+Qed.
+
+Lemma newcm_nou : forall old f m o, nou_cm (newcm old f m o) = true.
+Proof.
+  intros. destruct m; cbn [newcm nou_cm]; try reflexivity.
+  destruct o as [| |[k|]| | |l w| | ]; try reflexivity. destruct old; try reflexivity. destruct (f0 =? f)%N; reflexivity.
+Qed.
+
+Lemma tstep_noU : forall sh th sh' th' evs, noU th -> tstep sh th = (sh', th', evs) -> noU th'.
+Proof.
+  intros sh [m p c s] sh' th' evs (N1 & N2 & N3) E. unfold tstep in E. cbn [cm tpc cur scr] in *.
+  destruct p as [ | | |f0 m0|g0 m0|k|k|k|g p|g p|u q]; try discriminate N2.
+  - destruct (fetchk m s) as [[o r]|] eqn:F.
+    + destruct (fetchk_nou _ _ _ _ N3 F) as [O1 O2].
+      destruct (start_op sh m o) as [[sh1 p1] evs1] eqn:S. inversion E; subst; clear E.
+      unfold noU. cbn [cm tpc scr]. split; [assumption|]. split; [|assumption].
+      destruct m; try discriminate N1; destruct o; try discriminate O1; cbn [start_op] in S;
+        repeat match type of S with
+               | context [if ?x then _ else _] => destruct x
+               | context [match first_free ?a ?b with _ => _ end] => destruct (first_free a b)
+               end; inversion S; subst; reflexivity.
+    + inversion E; subst. repeat split; auto.
+  - inversion E; subst. repeat split; auto.
+  - inversion E; subst. repeat split; auto.
+  - inversion E; subst. repeat split; auto.
+  - inversion E; subst. repeat split; auto.
+  - destruct (fileno_of sh k); inversion E; subst; repeat split; auto.
+  - destruct (fileno_of sh k); inversion E; subst; repeat split; auto.
+  - destruct (fileno_of sh k); inversion E; subst; repeat split; auto.
+  - destruct (astep sh g p) as [[sh1 r] evs1]. destruct r; inversion E; subst; unfold noU; cbn [cm tpc scr]; repeat split; auto.
+    apply newcm_nou.
+  - destruct (astep sh g p) as [[sh1 r] evs1]. destruct r; inversion E; subst; unfold noU; cbn [cm tpc scr]; repeat split; auto.
+    destruct m0; reflexivity.
+Qed.
+
 (* one step of one process preserves the lock invariant of every anchor *)
 Lemma tstep_linv : forall sh l1 th l2 sh' th' evs,
+  nou_pc (tpc th) = true ->
   LInv (mkS sh (l1 ++ th :: l2)) ->
   tstep sh th = (sh', th', evs) ->
   LInv (mkS sh' (l1 ++ th' :: l2)) /\ tpc th' <> CrashedL \/ tpc th = CrashedL.
 Proof.
-  intros sh l1 th l2 sh' th' evs HL E.
-  destruct th as [m p c s]. unfold tstep in E. cbn [cm tpc cur scr] in E.
-  destruct p as [ | | |f0 m0|g0 m0|k|k|k|g p|g p].
+  intros sh l1 th l2 sh' th' evs NU HL E.
+  destruct th as [m p c s]. unfold tstep in E. cbn [cm tpc cur scr] in E. cbn [tpc] in NU.
+  destruct p as [ | | |f0 m0|g0 m0|k|k|k|g p|g p|u q]; try discriminate NU.
   - (* Rdy *)
     left. destruct (fetchk m s) as [[o r]|] eqn:F.
     + destruct (start_op sh m o) as [[sh1 p1] evs1] eqn:S. inversion E; subst; clear E.
@@ -316,7 +365,7 @@ Proof.
         destruct (start_op_weights _ _ _ _ _ _ r (match p1 with Rdy => None | _ => Some o end) f Lg S) as (A & W1 & C1 & W2 & C2).
         rewrite A in Ha'. exists a'. split; [assumption|]. intros L1 L2 H.
         eapply inv_swap2; [ | | | | exact H]; cbn [pri tra tpc cm]; first [symmetry; assumption | reflexivity].
-      * cbn [tpc]. destruct o; cbn [start_op] in S;
+      * cbn [tpc]. destruct m; destruct o; cbn [start_op] in S;
           repeat match type of S with
                  | context [if ?x then _ else _] => destruct x
                  | context [match first_free ?a ?b with _ => _ end] => destruct (first_free a b)
@@ -431,21 +480,28 @@ Qed.
 
 (* ---------- lifting: steps, schedules, reachable states ---------- *)
 Definition NoCrashL (st : mstate) : Prop := forall th, In th (mths st) -> tpc th <> CrashedL.
-Definition LInvC (st : mstate) : Prop := LInv st /\ NoCrashL st.
+Definition NoUpd (st : mstate) : Prop := forall th, In th (mths st) -> noU th.
+Definition LInvC (st : mstate) : Prop := LInv st /\ (NoCrashL st /\ NoUpd st).
 
 Lemma sstep_linv : forall st t st' evs b, LInvC st -> sstep st t = (st', evs, b) -> LInvC st'.
 Proof.
-  intros [sh l] t st' evs b [HL HN] E. unfold sstep in E. cbn [msh mths] in E.
-  destruct (nthN t l) as [th|] eqn:Nt; [|inversion E; subst; split; assumption].
-  destruct (terminalk (tpc th)) eqn:T; [inversion E; subst; split; assumption|].
+  intros [sh l] t st' evs b (HL & HN & HU) E. unfold sstep in E. cbn [msh mths] in E.
+  destruct (nthN t l) as [th|] eqn:Nt; [|inversion E; subst; (split; [|split]); assumption].
+  destruct (terminalk (tpc th)) eqn:T; [inversion E; subst; (split; [|split]); assumption|].
   destruct (tstep sh th) as [[sh1 th1] evs1] eqn:TS.
   inversion E; subst; clear E.
   destruct (nthN_split _ _ _ _ Nt) as (l1 & l2 & E1 & E2 & _). rewrite E2. subst l.
-  destruct (tstep_linv _ _ _ _ _ _ _ HL TS) as [[A B]|C].
-  - split; [exact A|]. intros x I. cbn [mths] in I. apply in_app_or in I. destruct I as [I|[I|I]].
-    + apply HN. cbn [mths]. apply in_or_app. left. exact I.
-    + subst x. exact B.
-    + apply HN. cbn [mths]. apply in_or_app. right. right. exact I.
+  assert (UT : noU th) by (apply HU; cbn [mths]; apply in_or_app; right; left; reflexivity).
+  assert (PC : nou_pc (tpc th) = true) by (destruct UT as (_ & X & _); exact X).
+  assert (REST : forall (P : mthread -> Prop), (forall x, In x (l1 ++ th :: l2) -> P x) -> P th1 -> forall x, In x (l1 ++ th1 :: l2) -> P x).
+  { intros P HP H1 x I. apply in_app_or in I. destruct I as [I|[I|I]].
+    - apply HP. apply in_or_app. left. exact I.
+    - subst x. exact H1.
+    - apply HP. apply in_or_app. right. right. exact I. }
+  destruct (tstep_linv _ _ _ _ _ _ _ PC HL TS) as [[A B]|C].
+  - split; [exact A|]. split.
+    + intros x I. cbn [mths] in I. revert x I. apply REST; [exact HN | exact B].
+    + intros x I. cbn [mths] in I. revert x I. apply (REST noU); [exact HU | eapply tstep_noU; eassumption].
   - exfalso. apply (HN th); [cbn [mths]; apply in_or_app; right; left; reflexivity | exact C].
 Qed.
 
@@ -473,20 +529,24 @@ Proof.
   cbn [map]. rewrite proj_cons. rewrite !sumf_cons. cbn [pri tra tpc cm cm_lmode]. rewrite H, IH. reflexivity.
 Qed.
 
-Lemma sinit_linv : forall n scripts, LInvC (sinit n scripts).
+Definition noupd (scripts : list (list kop)) : bool := forallb (forallb nou_op) scripts.
+
+Lemma sinit_linv : forall n scripts, noupd scripts = true -> LInvC (sinit n scripts).
 Proof.
-  intros n scripts. split.
+  intros n scripts NU. split; [|split].
   - intros f a Ha. cbn [sinit msh mths mshared0 anchors] in *.
     apply nthN_repeatN in Ha. subst a. cbn [lk anchor0].
     constructor; cbn [sh ths idle_shared readers writing appending updating readLevel writeLevel];
       unfold Srl, Srd, Swl, Sfw, Swr, Sap, Sup, Sxc, Src, Scr; rewrite ?sumf_proj_init; try reflexivity; try lia.
   - intros th I. cbn [sinit mths] in I. apply in_map_iff in I. destruct I as (s & E & _). subst th. discriminate.
+  - intros th I. cbn [sinit mths] in I. apply in_map_iff in I. destruct I as (s & E & Is). subst th.
+    unfold noU. cbn [cm tpc scr]. repeat split. unfold noupd in NU. rewrite forallb_forall in NU. apply NU. exact Is.
 Qed.
 
-Theorem sreach_linv : forall n scripts sched, LInvC (sreach n scripts sched).
+Theorem sreach_linv : forall n scripts sched, noupd scripts = true -> LInvC (sreach n scripts sched).
 Proof.
-  intros. unfold sreach. destruct (sexec (sinit n scripts) sched) as [[st e] k] eqn:E. simpl.
-  eapply sexec_linv; [apply sinit_linv | eassumption].
+  intros n scripts sched NU. unfold sreach. destruct (sexec (sinit n scripts) sched) as [[st e] k] eqn:E. simpl.
+  eapply sexec_linv; [apply sinit_linv; exact NU | eassumption].
 Qed.
 
 (* ---------- positions in the list of virtual lock processes ---------- *)
@@ -540,7 +600,7 @@ Section LockConsequences.
 
   Theorem no_lock_assert_fails : forall i th, nthN i (mths st) = Some th -> tpc th <> CrashedL.
   Proof.
-    intros i th Ni. destruct HI as [_ HN]. apply HN.
+    intros i th Ni. destruct HI as [_ [HN _]]. apply HN.
     destruct (nthN_split _ _ _ _ Ni) as (l1 & l2 & E & _ & _). rewrite E. apply in_or_app. right. left. reflexivity.
   Qed.
 End LockConsequences.
